@@ -1,7 +1,7 @@
 from .base import *
 
 ID = 'C09'
-THEOREMS = ['C09_encoding', 'C09_value_def', 'C09_orthogonal', 'C09_diff_canon', 'C09_self', 'C09_bound', 'C09_cos_value', 'C09_value', 'C09_orthogonal_value', 'C09_value_hyps_inhabited']
+THEOREMS = ['C09_encoding', 'C09_value_def', 'C09_orthogonal', 'C09_diff_canon', 'C09_self', 'C09_bound', 'C09_cos_value', 'C09_value', 'C09_orthogonal_value', 'C09_value_hyps_inhabited', 'C09_symmetry']
 OWNED = {'GDot', 'GIsOrth'}
 RULE = ('pairs by angle relation (identical, opposite, orthogonal exactly and +-ulps, nearly parallel/opposite, whole-turn twins up to 2^21 blades, arbitrary, blades to 2^40) x magnitude relation incl. zero; '
         'dot both ways, a.a, is_orthogonal. non-trivial = owned op result differs from its operands')
